@@ -168,6 +168,13 @@ class Body:
     def stmts(self, b):
         return self.blocks[b]["s"]
 
+    def call_term(self, b):
+        """the call terminator of block b — also when the call was spliced away in a flat body"""
+        t = self.blocks[b]["t"]
+        if t and t["k"] == "goto" and "inlined_call" in t:
+            return t["inlined_call"]
+        return t
+
     def succ(self, b):
         if self._succ is None:
             self._succ = [self._succ_of(i) for i in range(self.n)]
@@ -343,13 +350,21 @@ class Body:
 
     # ---- statements / calls -----------------------------------------------------------
     def calls(self):
-        """[(block, Callee, term)] for every reachable call terminator"""
+        """[(block, Callee, term)] for every reachable call terminator. In a flat body the call sites that were spliced away are listed
+        too (with their original call terminator: same args, same dest — the spliced callee assigns the dest on return), so that a rule
+        that looks for "the call to X" finds it whether or not X's body was spliced in."""
         out = []
         for b in self.rpo():
             t = self.term(b)
             if t and t["k"] == "call":
                 out.append((b, Callee(t["f"]), t))
+            elif t and t["k"] == "goto" and "inlined_call" in t:
+                out.append((b, Callee(t["inlined_call"]["f"]), t["inlined_call"]))
         return out
+
+    def real_calls(self):
+        """call terminators only (spliced call sites excluded)"""
+        return [(b, c, t) for (b, c, t) in self.calls() if self.term(b)["k"] == "call"]
 
     def inlined_calls(self):
         """[(block, Callee, original call term)] for the call sites that were spliced away in a flat body"""
@@ -375,6 +390,9 @@ class Body:
                 if t:
                     if t["k"] == "call":
                         d[t["dest"][0]].append(("call", b, t))
+                    elif t["k"] == "goto" and "inlined_call" in t:
+                        # a spliced call still *defines* its destination as far as "derives from the call to X" is concerned
+                        d[t["inlined_call"]["dest"][0]].append(("call", b, t["inlined_call"], "spliced"))
                     elif t["k"] == "yield":
                         d[t["resume_arg"][0]].append(("yield", b, t))
             self._defs = d
@@ -493,13 +511,14 @@ class Body:
 
     def block_of_call(self, term):
         for b in self.rpo():
-            if self.term(b) is term:
+            t = self.term(b)
+            if t is term or (t and t.get("inlined_call") is term):
                 return b
         return None
 
     def gating_switches(self, call_block, through=None):
         """Switch terminators whose discriminant may derive from the result of the call at `call_block`."""
-        t = self.term(call_block)
+        t = self.call_term(call_block)
         seen, calls, switches = self.slice_fwd([t["dest"][0]])
         return switches
 
@@ -594,6 +613,27 @@ class Program:
         if ck not in cache:
             cache[ck] = flatten(self, defp, max_depth=max_depth, stop=stop)
         return cache[ck]
+
+    def flat_contexts(self, defp):
+        """flat views of *other* production bodies into which `defp` was spliced: [(flat body, {orig block -> [flat blocks]})]"""
+        idx = self.__dict__.get("_ctx_index")
+        if idx is None:
+            idx = defaultdict(list)
+            for b in self.prod_bodies():
+                fb = self.flat(b.defp)
+                for o in set(fb.origin):
+                    if o != b.defp:
+                        idx[o].append(b.defp)
+            self._ctx_index = idx
+        out = []
+        for r in idx.get(defp, []):
+            fb = self.flat(r)
+            m = defaultdict(list)
+            for i in range(fb.n):
+                if fb.origin[i] == defp:
+                    m[fb.origin_blk[i]].append(i)
+            out.append((fb, m))
+        return out
 
     def callers_of(self, pred):
         """[(body, block, callee, term)] over all production bodies"""
